@@ -277,6 +277,7 @@ let () =
            | "orc" -> ("ok", "-")
            | "val" | "scr" ->
              let j = next s in
+             let cuts = (match next s with "-" -> [] | c -> List.map (fun x -> nat_of_int (int_of_string x)) (String.split_on_char ',' c)) in
              if fields.(0) = "scr" then ignore (str_runes s);
              float_tab := []; bad_tok := false;
              let v = value s in
@@ -291,7 +292,9 @@ let () =
              let w = if j = "1" then items_str (save_text is_print v) else "-" in
              let (st2, ex2) = read_repl text in
              let rp = String.concat " | " (status_str st2 :: List.map canon_sexp ex2) in
-             let m = "P=" ^ items_str text ^ " ;; R=" ^ r ^ " ;; RP=" ^ rp ^ " ;; EV=" ^ ev ^ " ;; W=" ^ w ^ (if !bad_tok then " ;; BADTOK" else "") in
+             let (st3, ex3) = read_pieces cuts text in
+             let pc = String.concat " | " (status_str st3 :: List.map canon_sexp ex3) in
+             let m = "P=" ^ items_str text ^ " ;; R=" ^ r ^ " ;; PC=" ^ pc ^ " ;; RP=" ^ rp ^ " ;; EV=" ^ ev ^ " ;; W=" ^ w ^ (if !bad_tok then " ;; BADTOK" else "") in
              let cv = canon_value v in
              let spec = "R=" ^ (if has_hash v then "-" else "D | " ^ cv) ^ " ;; E=" ^ (if j = "1" then cv else "-") in
              (m, spec)
